@@ -227,7 +227,7 @@ PROPS["C15"] = {
 }
 
 PROPS["C12"] = {
-    "streams": [{"name": "timed"}],
+    "streams": [{"name": "timed"}, {"name": "tlv"}, {"name": "inst"}],
     "model_is_spec": ["timed"],
     "spec_theorem": "in every reachable model state a Listening port has its receipt timer armed, a Master its announce and sync timers, a Slave its delay timer (C12.reachable_allwait), and the progress steps hold (C12.receipt_timeout_makes_master … slave_keeps_requesting)",
     "rule": "timed: a simulated host that applies every Reset…Timer action and fires a timer only when it is armed, in due order of "
@@ -246,7 +246,7 @@ PROPS["C12"] = {
 PROPS["C03"] = {
     "streams": [{"name": "inst"}, {"name": "tlv"}, {"name": "master"}, {"name": "timed"},
                 {"name": "filt", "chunk_prefixes": ["FLT knew", "FLT bnew"]},
-                {"name": "loop", "chunk_prefixes": ["FLT knew"]}],
+                {"name": "loop", "chunk_prefixes": ["FLT knew"]}, {"name": "portloop", "model": False}],
     "model_is_spec": ["inst", "tlv", "master", "timed"],
     "profiles_thorough": ["debug", "release"],
     "model_profiles": ["debug"],
@@ -266,11 +266,13 @@ PROPS["C03"] = {
 }
 
 PROPS["C13"] = {
-    "streams": [{"name": "filt", "chunk_prefixes": ["FLT knew", "FLT bnew"]}],
+    "streams": [{"name": "filt", "chunk_prefixes": ["FLT knew", "FLT bnew"]}, {"name": "inst"}],
     "profiles_thorough": ["debug", "release"],
     "model_profiles": ["debug"],
     "spec_theorem": "",
-    "rule": "filt: the real KalmanFilter and BasicFilter, call by call (measurement / update / demobilize), against a recording clock "
+    "rule": "inst: the demobilize and measurement events of the recording filter under the instance stream's histories - compared with the "
+            "model, and judged by the port-level oracle: a port that leaves the slave state demobilises its servo exactly once. "
+            "filt: the real KalmanFilter and BasicFilter, call by call (measurement / update / demobilize), against a recording clock "
             "that refuses commands intermittently. Scenarios: servo configurations (step threshold 1 ns … 10^6 s, max_freq_offset 10^-3 … 10^5 ppm "
             "incl. values that are not round in binary, max_steer, steer time, dead zone, estimator boundaries, hysteresis, wander), then "
             "histories of up to 120 (thorough: 400) measurements of eight shapes: steady link with drift and jitter 0 … 1 ms (zero jitter = "
@@ -293,7 +295,7 @@ PROPS["C13"] = {
 }
 
 PROPS["C02"] = {
-    "streams": [{"name": "loop", "chunk_prefixes": ["FLT knew"]}],
+    "streams": [{"name": "loop", "chunk_prefixes": ["FLT knew"]}, {"name": "portloop", "model": False}],
     "profiles": ["release"],
     "profiles_thorough": ["release"],
     "model_profiles": ["release"],
@@ -306,7 +308,13 @@ PROPS["C02"] = {
             "fastest and slowest rates). 60 scenarios per quick run, 1500 per thorough run, each 60 + 350·I + 200 simulated seconds (I = the "
             "slower of the two intervals). Oracle on the true offset of the simulated clock: it comes below 500 ns + 1.5 x jitter amplitude "
             "within 60 + 350·I seconds and never exceeds it again, and no step is given after that. Every call is also compared bit for bit "
-            "with the Lean servo model (commands, estimates, complete filter state). distinct = distinct measurement lines",
+            "with the Lean servo model (commands, estimates, complete filter state). One loop scenario in four keeps a Delay_Req in flight "
+            "across the Sync arrivals of the first 20 s. portloop (oracle only): the full stack - a real slave Port (slave-only instance, E2E, "
+            "default KalmanConfiguration) on a simulated clock, a simulated master (one-step or two-step, Announce every second) and path; "
+            "frames, transmit timestamps, the port's own timers (random delay request spacing, filter update, announce receipt) and BMCA runs "
+            "go through the public host interface; in a quarter of the scenarios the transmit timestamp of every Delay_Req is reported "
+            "after its response. Same scenario domain and oracle, deadline + 10 s; 40 scenarios per quick run, 600 per thorough run. "
+            "distinct = distinct measurement lines",
     "explanation": "closed-loop simulation oracle on the real filter (sampling) + bit-exact model correspondence; Lean theorems for the structural facts (no step below the threshold, negative feedback)",
     "assumptions": ["convergence itself is NOT proved: it is a property of floating-point trajectories under random jitter; the verdict on it rests on the sampled closed-loop scenarios (a bounded simulation, named as such)",
                     "the numeric bound (500 ns + 1.5 x jitter amplitude) and deadline (60 + 350·I s) are calibrations against 4500 scenarios of the unchanged servo with a factor of about two of margin; the property itself only says 'a bound set by the jitter' and 'a bounded time'",
@@ -492,12 +500,24 @@ def _projection(pid, stream, profile):
         return f3
     if pid == "C19" and stream == "view":
         return _projection("C11", stream, profile)
+    if pid == "C13" and stream == "inst":
+        # the port's side of "leaving the slave state": when the servo is handed measurements and when it is demobilised
+        def f13i(op, obs):
+            parts = obs.split(" | ")
+            items = [it for it in parts[0].split(" ; ") if ":demob" in it or ":meas " in it]
+            st = next((x for x in parts if x.startswith("S ")), "")
+            if not items and "R panic" not in obs:
+                return None
+            return " ; ".join(it.split(" ")[0] for it in items) + " | " + st + (" | R panic" if "R panic" in obs else "")
+        return f13i
     if pid in ("C13", "C02"):
         def f13(op, obs):
             return "R panic" if obs.startswith("R panic") else obs
         return f13
     if pid == "C12":
         def f12(op, obs):
+            if "R panic" in obs:
+                return "R panic"   # a call that panics re-arms nothing
             items = obs.split(" | ")[0].split(" ; ")
             keep = [it for it in items if ":reset " in it]
             return " ; ".join(keep) + " | " + state_part(obs)
